@@ -945,7 +945,74 @@ _KT_QUICK = [KT.index((h, 0)) for h in range(11)] + [KT.index((h, 1)) for h in (
 
 _FALSE6 = dict(pa5=False, pb5=False)
 
+# ---- two configurables made by one factory: distinct function objects, ONE code object, different defaults
+#      (round e seed C01-e: the argspec cache keyed by code object handed the second the defaults of the first) -------
+CLOS_LOG = []
+
+
+def _make_loader(default_a, default_c):
+  def loader(a=default_a, b=-7, *, c=default_c):
+    CLOS_LOG.append((a, b, c))
+    return (a, b, c)
+  return loader
+
+
+if 'vw01.strict_load' not in gc._REGISTRY:
+  # the first one marks its parameters REQUIRED, the second has ordinary defaults of its own
+  strict_load = gin.external_configurable(_make_loader(gin.REQUIRED, gin.REQUIRED), 'strict_load', module='vw01')
+  lax_load = gin.external_configurable(_make_loader(41, 43), 'lax_load', module='vw01')
+else:   # pragma: no cover
+  strict_load = gc._REGISTRY['vw01.strict_load'].wrapper
+  lax_load = gc._REGISTRY['vw01.lax_load'].wrapper
+
+
+def c01_closures(ma: int, mc: int, ba: bool, bc: bool, ins: bool, va: int, vc: int, ca: int, cc: int) -> bool:
+  """
+  pre: 0 <= ma < 3 and 0 <= mc < 2
+  """
+  world.fresh()
+  del CLOS_LOG[:]
+  ma, mc = rt.pick(ma, 3), rt.pick(mc, 2)       # a: omitted / positional / keyword;  c: omitted / keyword
+  ba, bc, ins = rt.flag(ba), rt.flag(bc), rt.flag(ins)
+  rt.sig(('closures', ma, mc, ba, bc, ins), nontrivial=True)
+  if ba:
+    gin.bind_parameter('s/vw01.lax_load.a', va)          # applies only inside scope s
+  if bc:
+    gin.bind_parameter('vw01.lax_load.c', vc)
+  args = (ca,) if ma == 1 else ()
+  kw = {}
+  if ma == 2:
+    kw['a'] = ca
+  if mc == 1:
+    kw['c'] = cc
+  try:
+    if ins:
+      with gin.config_scope('s'):
+        got = lax_load(*args, **kw)
+    else:
+      got = lax_load(*args, **kw)
+  except Exception as e:   # noqa
+    with rt.native():
+      return rt.no('the call raised %r: the function has defaults of its own' % (e,))
+  want_a = ca if ma else (va if (ba and ins) else 41)
+  want_c = cc if mc else (vc if bc else 43)
+  return rt.same('a', got[0], want_a) and got[1] == -7 and rt.same('c', got[2], want_c)
+
+
 HARNESSES = {
+    'c01_closures': dict(
+        fn='c01_closures',
+        anchors=['gin.config:gin_wrapper', 'gin.config:_get_cached_arg_spec'],
+        smoke=[dict(ma=0, mc=0, ba=False, bc=False, ins=False, va=1, vc=2, ca=3, cc=4),
+               dict(ma=1, mc=1, ba=True, bc=True, ins=True, va=1, vc=2, ca=3, cc=4),
+               dict(ma=2, mc=0, ba=True, bc=False, ins=True, va=1, vc=2, ca=3, cc=4)],
+        tiers={'quick': dict(split=dict(ma=[0, 1, 2]), budget_s=60),
+               'thorough': dict(split=dict(ma=[0, 1, 2], mc=[0, 1]), budget_s=100)},
+        bounds='two configurables produced by one factory (distinct function objects sharing one code object): the '
+               'first registered with gin.REQUIRED defaults, the second with ordinary defaults of its own; the second '
+               'is called with a omitted / positional / keyword, keyword-only c omitted / given, bindings at root and '
+               'under a scope present or not, inside or outside the scope: caller value > applicable binding > the '
+               "function's OWN default (all ints)"),
     'c01_inject': dict(
         fn='c01_inject',
         anchors=['gin.config:_get_bindings', 'gin.config:gin_wrapper',
